@@ -97,7 +97,7 @@ Walk(pp) ==
 \* ---------------------------------------------------------------- guards (C13)
 GuardFails(t, v, isRoot) ==
   LET g == T(t).guard IN
-  \/ g = "requires"
+  \/ g \in {"requires", "requires2"}
   \/ g = "enum" /\ v # "one"
   \/ g = "precond"
   \/ g = "prompt" /\ ~Prog.yes
@@ -105,7 +105,7 @@ GuardFails(t, v, isRoot) ==
 
 GuardCode(t, v) ==
   LET g == T(t).guard IN
-  CASE g = "requires" -> 206
+  CASE g \in {"requires", "requires2"} -> 206
     [] g = "enum"     -> 207          \* V is always passed (possibly empty): outside the enum, not missing
     [] g = "precond"  -> 1
     [] g = "prompt"   -> 205
@@ -358,11 +358,11 @@ RootDead == {p \in DOMAIN dead : Len(p) = 1 /\ p[1][1] = "r"}
 GuardWitness ==
   IF Len(Prog.roots) # 1 THEN 0
   ELSE LET r == Prog.roots[1] t == r.t IN
-       IF GuardFails(t, r.v, TRUE) /\ (T(t).guard \in {"requires", "enum", "internal"} \/ T(t).deps = <<>>)
+       IF GuardFails(t, r.v, TRUE) /\ (T(t).guard \in {"requires", "requires2", "enum", "internal"} \/ T(t).deps = <<>>)
        THEN GuardCode(t, r.v)
        ELSE IF T(t).guard \in {"none"} /\ Len(ExpDeps(t)) = 1
        THEN LET d == ExpDeps(t)[1] vv == ResolveV(d.v, r.v) IN
-            IF GuardFails(d.t, vv, FALSE) /\ (T(d.t).guard \in {"requires", "enum"} \/ T(d.t).deps = <<>>)
+            IF GuardFails(d.t, vv, FALSE) /\ (T(d.t).guard \in {"requires", "requires2", "enum"} \/ T(d.t).deps = <<>>)
             THEN GuardCode(d.t, vv) ELSE 0
        ELSE 0
 
